@@ -163,6 +163,7 @@ MUT_PROJ = {  # calls returning a reference into their first (&mut) argument
     'I::into_iter', 'Iterator::enumerate', 'Iterator::skip', 'Iterator::take', 'Iterator::zip', 'Iterator::rev',
     'Iterator::by_ref', 'IterMut::next', 'Enumerate::next', 'Skip::next', 'Take::next', 'Zip::next', 'Rev::next',
     'Mat::index_mut', 'Col::index_mut',
+    'Option::iter_mut', 'Iterator::flatten', 'Flatten::next', 'Enumerate::next', 'Iterator::map',
 }
 COMMUTATIVE = {'add', 'mul', 'eq', 'ne', 'bitand', 'bitor', 'bitxor'}
 CMP_FLIP = {'gt': 'lt', 'ge': 'le'}
